@@ -10,6 +10,7 @@ use std::fs::File;
 use std::io::{BufWriter, Write};
 
 mod c02;
+mod c03;
 mod c05;
 mod c09;
 mod gen;
@@ -199,6 +200,8 @@ pub fn eval(out: &mut Out, req: &str) -> String {
     let args: Vec<&str> = it.collect();
     let r = if op.starts_with("leb.") {
         c09::eval(out, op, &args)
+    } else if op == "wire.roundtrip" || op == "wire.annotate" {
+        c03::eval(out, op, &args)
     } else if op.starts_with("wire.") {
         c02::eval(out, op, &args)
     } else if op.starts_with("sub.") {
@@ -257,6 +260,7 @@ fn main() {
     match prop {
         "replay" => {}
         "C02" => c02::run(&mut ctx),
+        "C03" => c03::run(&mut ctx),
         "C05" => c05::run(&mut ctx),
         "C09" => c09::run(&mut ctx),
         "C16" => c16::run(&mut ctx),
